@@ -251,25 +251,30 @@ def pickDecide (st : St σ) : Except SimFault Pick := do
   else if i ≤ s then pure (.timer i)
   else pure (.action s)
 
-/-- branch "aggregate delay": pop it and pick again -/
-def pickAgg (st : St σ) : Except SimFault (St σ) := do
+/-- branch "aggregate delay": pop it and pick again.  `pop_aggregate_delay` on an empty queue
+    changes nothing, so `pick_next` would call itself forever with the same state: that is the
+    fault `diverge` (unreachable: the branch needs `n` minimal and not all candidates `MAX`). -/
+def pickAgg (st : St σ) : Except SimFault (St σ) :=
+  if st.net.aggQueue.len = 0 then .error .diverge else do
   let net ← st.net.popAggregateDelay
   pure { st with net := net }
 
+/-- the aggregate delay, if any, queued when the blocking of a side expires at `expiry` -/
+def blockExpNet (sq : SimQueue) (net : Bottleneck) (bIsClient : Bool) (expiry : Int) : Except SimFault Bottleneck :=
+  match (sq.peekBlocking false bIsClient).1 with
+  | some ev =>
+    if ev.time < expiry then
+      match aggDelayOnBlockingExpire sq bIsClient expiry ev (net.agg bIsClient) with
+      | some bd => net.pushAggregateDelay bd expiry bIsClient
+      | none => pure net
+    else pure net
+  | none => pure net
+
 /-- branch "blocking expiry": clear the expiry, maybe queue an aggregate delay, emit BlockingEnd -/
 def pickBlockExp (st : St σ) (b : Nat) (bIsClient : Bool) : Except SimFault (SimEvent × St σ) := do
-  let sd := st.side bIsClient
-  let st1 := st.setSide bIsClient { sd with blockingUntil := none }
-  let expiry := st.now + b
-  let net ← match (st1.sq.peekBlocking false bIsClient).1 with
-    | some ev =>
-      if ev.time < expiry then
-        match aggDelayOnBlockingExpire st1.sq bIsClient expiry ev (st1.net.agg bIsClient) with
-        | some bd => st1.net.pushAggregateDelay bd expiry bIsClient
-        | none => pure st1.net
-      else pure st1.net
-    | none => pure st1.net
-  pure (⟨.blockingEnd, expiry, bIsClient, false, false, false⟩, { st1 with net := net })
+  let net ← blockExpNet st.sq st.net bIsClient (st.now + b)
+  pure (⟨.blockingEnd, st.now + b, bIsClient, false, false, false⟩,
+        { (st.setSide bIsClient { (st.side bIsClient) with blockingUntil := none }) with net := net })
 
 /-- branch "queue": pop the peeked event, moved forward in time if blocking delayed it -/
 def pickQueue (st : St σ) (q : Nat) (qid : Queue) (qIsClient : Bool) : Except SimFault (SimEvent × St σ) := do
@@ -292,32 +297,33 @@ def pickAction (st : St σ) (s : Nat) : Except SimFault (St σ) := do
   let (ev, st) ← doScheduledAction st (st.now + s)
   pure { st with sq := st.sq.pushSim ev }
 
-/-- `pick_next`, structural on fuel -/
-def pickNext : Nat → St σ → Except SimFault (Option SimEvent × St σ)
-  | 0, _ => .error .fuel
+/-- `pick_next`, structural on fuel; `none` = the fuel ran out (never with fuel
+    `pickMeasure st + 1`, theorem `C19_pickNext_fuel`) -/
+def pickNext : Nat → St σ → Option (Except SimFault (Option SimEvent × St σ))
+  | 0, _ => none
   | fuel + 1, st =>
     match pickDecide st with
-    | .error f => .error f
-    | .ok .nothing => .ok (none, st)
+    | .error f => some (.error f)
+    | .ok .nothing => some (.ok (none, st))
     | .ok .agg =>
       match pickAgg st with
-      | .error f => .error f
+      | .error f => some (.error f)
       | .ok st => pickNext fuel st
     | .ok (.blockExp b c) =>
       match pickBlockExp st b c with
-      | .error f => .error f
-      | .ok (e, st) => .ok (some e, st)
+      | .error f => some (.error f)
+      | .ok (e, st) => some (.ok (some e, st))
     | .ok (.queue q qid c) =>
       match pickQueue st q qid c with
-      | .error f => .error f
-      | .ok (e, st) => .ok (some e, st)
+      | .error f => some (.error f)
+      | .ok (e, st) => some (.ok (some e, st))
     | .ok (.timer i) =>
       match pickTimer st i with
-      | .error f => .error f
+      | .error f => some (.error f)
       | .ok st => pickNext fuel st
     | .ok (.action s) =>
       match pickAction st s with
-      | .error f => .error f
+      | .error f => some (.error f)
       | .ok st => pickNext fuel st
 
 end
